@@ -1,1 +1,991 @@
-//! (stub)
+//! Independent CRAM 3.x container walker, written from the CRAM specification (CRAMv3.pdf: §6 file
+//! definition, §7 container header, §8 block structure, §8.4 compression header, §8.5 slice header,
+//! §9 EOF container) — it shares no code with noodles-cram: own ITF8/LTF8 readers, CRC32 through
+//! `crc32fast`, gzip through an own header parse + `miniz_oxide`, bzip2 through the `bzip2` crate.
+//!
+//! Two layers: `walk` parses and *records* facts (tolerant: a wrong CRC or counter is recorded,
+//! not an error; only an unparseable layout is an `Err`), `check_structure` asserts the
+//! invariants that follow from the specification alone. Invariants that need the generator's
+//! ground truth (record partition, spans, MD5 of the reference) live in the property modules.
+//!
+//! Block payload decoding (`decode_block`): raw, gzip and bzip2 are decoded independently; lzma,
+//! rANS 4x8, rANS Nx16, the adaptive arithmetic coder, fqzcomp and the name tokenizer go through
+//! noodles' own decoders (hook H2a) — for those only "decodes, and to exactly the declared raw
+//! size" is established, plus the stream's *own* size field where the codec format has one.
+
+use crate::oracle::bgzf_walk;
+
+/// §9: the CRAM v3 end-of-file container, transcribed from the specification.
+pub const EOF_V3: [u8; 38] = [
+    0x0f, 0x00, 0x00, 0x00, 0xff, 0xff, 0xff, 0xff, 0x0f, 0xe0, 0x45, 0x4f, 0x46, 0x00, 0x00, 0x00, 0x00, 0x01, 0x00, 0x05, 0xbd, 0xd9, 0x4f, 0x00, 0x01, 0x00, 0x06, 0x06, 0x01, 0x00, 0x01, 0x00, 0x01, 0x00, 0xee, 0x63, 0x01, 0x4b,
+];
+
+pub const FILE_DEFINITION_LEN: usize = 26;
+
+pub mod method {
+    pub const RAW: u8 = 0;
+    pub const GZIP: u8 = 1;
+    pub const BZIP2: u8 = 2;
+    pub const LZMA: u8 = 3;
+    pub const RANS4X8: u8 = 4;
+    pub const RANSNX16: u8 = 5;
+    pub const ARITH: u8 = 6;
+    pub const FQZCOMP: u8 = 7;
+    pub const TOK3: u8 = 8;
+}
+
+pub mod content_type {
+    pub const FILE_HEADER: u8 = 0;
+    pub const COMPRESSION_HEADER: u8 = 1;
+    pub const SLICE_HEADER: u8 = 2;
+    pub const EXTERNAL_DATA: u8 = 4;
+    pub const CORE_DATA: u8 = 5;
+}
+
+pub fn method_name(m: u8) -> &'static str {
+    match m {
+        0 => "raw",
+        1 => "gzip",
+        2 => "bzip2",
+        3 => "lzma",
+        4 => "rans4x8",
+        5 => "ransNx16",
+        6 => "arith",
+        7 => "fqzcomp",
+        8 => "tok3",
+        _ => "unknown",
+    }
+}
+
+// ---------------------------------------------------------------------------------------------
+// integer codings (§2.3)
+// ---------------------------------------------------------------------------------------------
+
+pub struct Cur<'a> {
+    pub b: &'a [u8],
+    pub pos: usize,
+}
+
+impl<'a> Cur<'a> {
+    pub fn new(b: &'a [u8], pos: usize) -> Self {
+        Cur { b, pos }
+    }
+    pub fn u8(&mut self) -> Result<u8, String> {
+        let v = *self.b.get(self.pos).ok_or_else(|| format!("unexpected end of data at {}", self.pos))?;
+        self.pos += 1;
+        Ok(v)
+    }
+    pub fn take(&mut self, n: usize) -> Result<&'a [u8], String> {
+        if self.pos + n > self.b.len() {
+            return Err(format!("need {n} bytes at {} but only {} remain", self.pos, self.b.len() - self.pos));
+        }
+        let s = &self.b[self.pos..self.pos + n];
+        self.pos += n;
+        Ok(s)
+    }
+    pub fn i32_le(&mut self) -> Result<i32, String> {
+        let s = self.take(4)?;
+        Ok(i32::from_le_bytes([s[0], s[1], s[2], s[3]]))
+    }
+    pub fn u32_le(&mut self) -> Result<u32, String> {
+        let s = self.take(4)?;
+        Ok(u32::from_le_bytes([s[0], s[1], s[2], s[3]]))
+    }
+    /// ITF8: the number of leading 1 bits of the first byte (0..=4) is the number of further bytes.
+    pub fn itf8(&mut self) -> Result<i32, String> {
+        let b0 = self.u8()? as u32;
+        let v: u32 = if b0 & 0x80 == 0 {
+            b0
+        } else if b0 & 0x40 == 0 {
+            ((b0 & 0x3f) << 8) | self.u8()? as u32
+        } else if b0 & 0x20 == 0 {
+            let (b1, b2) = (self.u8()? as u32, self.u8()? as u32);
+            ((b0 & 0x1f) << 16) | (b1 << 8) | b2
+        } else if b0 & 0x10 == 0 {
+            let (b1, b2, b3) = (self.u8()? as u32, self.u8()? as u32, self.u8()? as u32);
+            ((b0 & 0x0f) << 24) | (b1 << 16) | (b2 << 8) | b3
+        } else {
+            let (b1, b2, b3, b4) = (self.u8()? as u32, self.u8()? as u32, self.u8()? as u32, self.u8()? as u32);
+            ((b0 & 0x0f) << 28) | (b1 << 20) | (b2 << 12) | (b3 << 4) | (b4 & 0x0f)
+        };
+        Ok(v as i32)
+    }
+    /// LTF8: leading 1 bits of the first byte (0..=8) = number of further bytes.
+    pub fn ltf8(&mut self) -> Result<i64, String> {
+        let b0 = self.u8()?;
+        let n = b0.leading_ones() as usize;
+        let mut v: u64 = if n >= 7 { 0 } else { (b0 as u64) & (0x7f >> n) };
+        for _ in 0..n {
+            v = (v << 8) | self.u8()? as u64;
+        }
+        Ok(v as i64)
+    }
+    /// uint7 (CRAM 3.1 codecs): big-endian base-128 with continuation bits.
+    pub fn uint7(&mut self) -> Result<u32, String> {
+        let mut v: u32 = 0;
+        for _ in 0..5 {
+            let b = self.u8()?;
+            v = (v << 7) | (b & 0x7f) as u32;
+            if b & 0x80 == 0 {
+                return Ok(v);
+            }
+        }
+        Err("uint7 longer than 5 bytes".into())
+    }
+    pub fn itf8_array(&mut self) -> Result<Vec<i32>, String> {
+        let n = self.itf8()?;
+        if n < 0 || n as usize > self.b.len() {
+            return Err(format!("array length {n}"));
+        }
+        (0..n).map(|_| self.itf8()).collect()
+    }
+}
+
+pub fn write_itf8(out: &mut Vec<u8>, v: i32) {
+    let u = v as u32;
+    if u < 0x80 {
+        out.push(u as u8);
+    } else if u < 0x4000 {
+        out.extend_from_slice(&[0x80 | (u >> 8) as u8, u as u8]);
+    } else if u < 0x20_0000 {
+        out.extend_from_slice(&[0xc0 | (u >> 16) as u8, (u >> 8) as u8, u as u8]);
+    } else if u < 0x1000_0000 {
+        out.extend_from_slice(&[0xe0 | (u >> 24) as u8, (u >> 16) as u8, (u >> 8) as u8, u as u8]);
+    } else {
+        out.extend_from_slice(&[0xf0 | (u >> 28) as u8, (u >> 20) as u8, (u >> 12) as u8, (u >> 4) as u8, (u & 0x0f) as u8]);
+    }
+}
+
+// ---------------------------------------------------------------------------------------------
+// parsed structures
+// ---------------------------------------------------------------------------------------------
+
+#[derive(Clone, Debug)]
+pub struct Block {
+    /// file offset of the method byte
+    pub offset: usize,
+    pub method: u8,
+    pub content_type: u8,
+    pub content_id: i32,
+    pub comp_size: usize,
+    pub raw_size: usize,
+    /// file offset of the payload
+    pub data_offset: usize,
+    /// total bytes including the CRC32
+    pub total_len: usize,
+    pub crc_stored: u32,
+    pub crc_computed: u32,
+}
+
+impl Block {
+    pub fn payload<'a>(&self, file: &'a [u8]) -> &'a [u8] {
+        &file[self.data_offset..self.data_offset + self.comp_size]
+    }
+    pub fn crc_offset(&self) -> usize {
+        self.data_offset + self.comp_size
+    }
+}
+
+#[derive(Clone, Debug, Default)]
+pub struct SliceHeader {
+    pub ref_id: i32,
+    pub start: i32,
+    pub span: i32,
+    pub n_records: i32,
+    pub record_counter: i64,
+    pub n_blocks: i32,
+    pub content_ids: Vec<i32>,
+    pub embedded_ref_id: i32,
+    pub md5: [u8; 16],
+    /// bytes after the MD5 (optional tags)
+    pub tail: Vec<u8>,
+}
+
+#[derive(Clone, Debug)]
+pub struct Slice {
+    /// index of the slice header block in `Container::blocks`
+    pub header_block: usize,
+    /// byte offset of the slice header block from the end of the container header
+    pub offset_in_container: usize,
+    /// bytes from the start of the slice header block to the start of the next slice header
+    /// block (or the end of the container)
+    pub size: usize,
+    pub header: Result<SliceHeader, String>,
+    /// indices of the data blocks of this slice in `Container::blocks`
+    pub data_blocks: Vec<usize>,
+}
+
+#[derive(Clone, Debug, Default)]
+pub struct Encoding {
+    pub codec: i32,
+    pub params: Vec<u8>,
+    /// external block content ids the encoding refers to (EXTERNAL, BYTE_ARRAY_STOP and the
+    /// nested encodings of BYTE_ARRAY_LEN)
+    pub external_ids: Vec<i32>,
+}
+
+#[derive(Clone, Debug, Default)]
+pub struct CompressionHeader {
+    /// preservation map entries: (key, value bytes)
+    pub preservation: Vec<([u8; 2], Vec<u8>)>,
+    pub data_series: Vec<([u8; 2], Encoding)>,
+    pub tags: Vec<(i32, Encoding)>,
+}
+
+impl CompressionHeader {
+    pub fn pm(&self, key: &[u8; 2]) -> Option<&[u8]> {
+        self.preservation.iter().find(|(k, _)| k == key).map(|(_, v)| &v[..])
+    }
+    /// a boolean preservation-map entry (absent = true, §8.4)
+    pub fn pm_bool(&self, key: &[u8; 2]) -> bool {
+        self.pm(key).map(|v| v.first().copied().unwrap_or(1) != 0).unwrap_or(true)
+    }
+    /// tag dictionary lines: each a list of (tag, type)
+    pub fn tag_lines(&self) -> Result<Vec<Vec<([u8; 2], u8)>>, String> {
+        let Some(td) = self.pm(b"TD") else { return Ok(Vec::new()) };
+        let mut c = Cur::new(td, 0);
+        let n = c.itf8()?;
+        if n < 0 || c.pos + n as usize != td.len() {
+            return Err(format!("TD array length {n} does not match the {} value bytes", td.len() - c.pos));
+        }
+        let body = &td[c.pos..];
+        let mut lines = Vec::new();
+        if body.is_empty() {
+            return Ok(lines);
+        }
+        if *body.last().unwrap() != 0 {
+            return Err("TD dictionary is not NUL-terminated".into());
+        }
+        for line in body[..body.len() - 1].split(|b| *b == 0) {
+            if line.len() % 3 != 0 {
+                return Err(format!("TD line of {} bytes is not a multiple of 3", line.len()));
+            }
+            lines.push(line.chunks(3).map(|c| ([c[0], c[1]], c[2])).collect());
+        }
+        Ok(lines)
+    }
+}
+
+#[derive(Clone, Debug)]
+pub struct Container {
+    pub offset: usize,
+    pub header_len: usize,
+    /// declared byte length of the blocks
+    pub length: i32,
+    pub ref_id: i32,
+    pub start: i32,
+    pub span: i32,
+    pub n_records: i32,
+    pub record_counter: i64,
+    pub bases: i64,
+    pub n_blocks: i32,
+    pub landmarks: Vec<i32>,
+    pub crc_stored: u32,
+    pub crc_computed: u32,
+    pub blocks: Vec<Block>,
+    /// bytes of the declared length not covered by `n_blocks` whole blocks
+    pub leftover: usize,
+    pub is_eof: bool,
+    pub compression_header: Option<Result<CompressionHeader, String>>,
+    pub slices: Vec<Slice>,
+}
+
+impl Container {
+    pub fn data_start(&self) -> usize {
+        self.offset + self.header_len
+    }
+    pub fn end(&self) -> usize {
+        self.data_start() + self.length.max(0) as usize
+    }
+}
+
+#[derive(Clone, Debug)]
+pub struct CramFile {
+    pub major: u8,
+    pub minor: u8,
+    pub file_id: [u8; 20],
+    /// the first container (file header container)
+    pub header: Container,
+    /// the SAM header text carried by the header container (if it decodes)
+    pub header_text: Result<Vec<u8>, String>,
+    /// data containers, the EOF container included (last)
+    pub containers: Vec<Container>,
+}
+
+impl CramFile {
+    pub fn data_containers(&self) -> impl Iterator<Item = &Container> {
+        self.containers.iter().filter(|c| !c.is_eof)
+    }
+}
+
+// ---------------------------------------------------------------------------------------------
+// parsing
+// ---------------------------------------------------------------------------------------------
+
+pub fn parse_block(file: &[u8], off: usize) -> Result<Block, String> {
+    let mut c = Cur::new(file, off);
+    let method = c.u8().map_err(|e| format!("block at {off}: {e}"))?;
+    let content_type = c.u8()?;
+    let content_id = c.itf8()?;
+    let comp = c.itf8()?;
+    let raw = c.itf8()?;
+    if comp < 0 || raw < 0 {
+        return Err(format!("block at {off}: negative size (compressed {comp}, raw {raw})"));
+    }
+    let data_offset = c.pos;
+    c.take(comp as usize).map_err(|e| format!("block at {off}: payload: {e}"))?;
+    let crc_computed = crc32fast::hash(&file[off..c.pos]);
+    let crc_stored = c.u32_le().map_err(|e| format!("block at {off}: crc: {e}"))?;
+    Ok(Block { offset: off, method, content_type, content_id, comp_size: comp as usize, raw_size: raw as usize, data_offset, total_len: c.pos - off, crc_stored, crc_computed })
+}
+
+fn parse_encoding(c: &mut Cur, depth: usize) -> Result<Encoding, String> {
+    let codec = c.itf8()?;
+    let n = c.itf8()?;
+    if n < 0 {
+        return Err(format!("encoding {codec}: negative parameter length {n}"));
+    }
+    let params = c.take(n as usize)?.to_vec();
+    let mut external_ids = Vec::new();
+    let mut p = Cur::new(&params, 0);
+    match codec {
+        1 => {
+            // EXTERNAL: itf8 block content id
+            external_ids.push(p.itf8()?);
+            if p.pos != params.len() {
+                return Err("EXTERNAL encoding with trailing parameter bytes".into());
+            }
+        }
+        5 => {
+            // BYTE_ARRAY_STOP: stop byte, itf8 block content id
+            let _stop = p.u8()?;
+            external_ids.push(p.itf8()?);
+            if p.pos != params.len() {
+                return Err("BYTE_ARRAY_STOP encoding with trailing parameter bytes".into());
+            }
+        }
+        4 => {
+            // BYTE_ARRAY_LEN: lengths encoding, values encoding
+            if depth > 2 {
+                return Err("BYTE_ARRAY_LEN nested too deep".into());
+            }
+            let a = parse_encoding(&mut p, depth + 1)?;
+            let b = parse_encoding(&mut p, depth + 1)?;
+            external_ids.extend(a.external_ids);
+            external_ids.extend(b.external_ids);
+            if p.pos != params.len() {
+                return Err("BYTE_ARRAY_LEN encoding with trailing parameter bytes".into());
+            }
+        }
+        _ => {}
+    }
+    Ok(Encoding { codec, params, external_ids })
+}
+
+pub fn parse_compression_header(data: &[u8]) -> Result<CompressionHeader, String> {
+    let mut c = Cur::new(data, 0);
+    let mut h = CompressionHeader::default();
+    // preservation map
+    let size = c.itf8()?;
+    let end = c.pos + size.max(0) as usize;
+    let n = c.itf8()?;
+    for _ in 0..n.max(0) {
+        let k = c.take(2)?;
+        let key = [k[0], k[1]];
+        let v = match &key {
+            b"RN" | b"AP" | b"RR" => c.take(1)?.to_vec(),
+            b"SM" => c.take(5)?.to_vec(),
+            b"TD" => {
+                let s = c.pos;
+                let len = c.itf8()?;
+                if len < 0 {
+                    return Err("TD: negative length".into());
+                }
+                c.take(len as usize)?;
+                data[s..c.pos].to_vec()
+            }
+            _ => return Err(format!("preservation map: unknown key {:?}", String::from_utf8_lossy(&key))),
+        };
+        h.preservation.push((key, v));
+    }
+    if c.pos != end {
+        return Err(format!("preservation map: declared {size} bytes, entries end at {} (expected {end})", c.pos));
+    }
+    // data series encodings
+    let size = c.itf8()?;
+    let end = c.pos + size.max(0) as usize;
+    let n = c.itf8()?;
+    for _ in 0..n.max(0) {
+        let k = c.take(2)?;
+        let key = [k[0], k[1]];
+        let e = parse_encoding(&mut c, 0).map_err(|e| format!("data series {}: {e}", String::from_utf8_lossy(&key)))?;
+        h.data_series.push((key, e));
+    }
+    if c.pos != end {
+        return Err(format!("data series map: declared {size} bytes, entries end at {} (expected {end})", c.pos));
+    }
+    // tag encodings
+    let size = c.itf8()?;
+    let end = c.pos + size.max(0) as usize;
+    let n = c.itf8()?;
+    for _ in 0..n.max(0) {
+        let key = c.itf8()?;
+        let e = parse_encoding(&mut c, 0).map_err(|e| format!("tag encoding {key:#x}: {e}"))?;
+        h.tags.push((key, e));
+    }
+    if c.pos != end {
+        return Err(format!("tag encoding map: declared {size} bytes, entries end at {} (expected {end})", c.pos));
+    }
+    if c.pos != data.len() {
+        return Err(format!("compression header: {} trailing bytes", data.len() - c.pos));
+    }
+    Ok(h)
+}
+
+pub fn parse_slice_header(data: &[u8]) -> Result<SliceHeader, String> {
+    let mut c = Cur::new(data, 0);
+    let ref_id = c.itf8()?;
+    let start = c.itf8()?;
+    let span = c.itf8()?;
+    let n_records = c.itf8()?;
+    let record_counter = c.ltf8()?;
+    let n_blocks = c.itf8()?;
+    let content_ids = c.itf8_array()?;
+    let embedded_ref_id = c.itf8()?;
+    let m = c.take(16)?;
+    let mut md5 = [0u8; 16];
+    md5.copy_from_slice(m);
+    let tail = data[c.pos..].to_vec();
+    Ok(SliceHeader { ref_id, start, span, n_records, record_counter, n_blocks, content_ids, embedded_ref_id, md5, tail })
+}
+
+/// Parse one container at `off`.
+pub fn parse_container(file: &[u8], off: usize) -> Result<Container, String> {
+    let mut c = Cur::new(file, off);
+    let length = c.i32_le().map_err(|e| format!("container at {off}: {e}"))?;
+    let ref_id = c.itf8()?;
+    let start = c.itf8()?;
+    let span = c.itf8()?;
+    let n_records = c.itf8()?;
+    let record_counter = c.ltf8()?;
+    let bases = c.ltf8()?;
+    let n_blocks = c.itf8()?;
+    let landmarks = c.itf8_array().map_err(|e| format!("container at {off}: landmarks: {e}"))?;
+    let crc_computed = crc32fast::hash(&file[off..c.pos]);
+    let crc_stored = c.u32_le().map_err(|e| format!("container at {off}: crc: {e}"))?;
+    let header_len = c.pos - off;
+    if length < 0 {
+        return Err(format!("container at {off}: negative length {length}"));
+    }
+    let data_start = c.pos;
+    let data_end = data_start + length as usize;
+    if data_end > file.len() {
+        return Err(format!("container at {off}: declared length {length} passes the end of the file ({} bytes left)", file.len() - data_start));
+    }
+    let is_eof = file[off..data_end] == EOF_V3;
+    // blocks: as many as declared, inside the declared length
+    let mut blocks = Vec::new();
+    let mut pos = data_start;
+    for i in 0..n_blocks.max(0) {
+        if pos >= data_end {
+            return Err(format!("container at {off}: block {i} of {n_blocks} starts at the end of the declared length"));
+        }
+        let b = parse_block(&file[..data_end], pos).map_err(|e| format!("container at {off}: {e}"))?;
+        pos += b.total_len;
+        blocks.push(b);
+    }
+    let leftover = data_end - pos;
+
+    let mut compression_header = None;
+    let mut slices: Vec<Slice> = Vec::new();
+    if !is_eof {
+        for (i, b) in blocks.iter().enumerate() {
+            match b.content_type {
+                content_type::COMPRESSION_HEADER => {
+                    if compression_header.is_none() {
+                        compression_header = Some(decode_block(file, b).and_then(|d| parse_compression_header(&d)));
+                    }
+                }
+                content_type::SLICE_HEADER => {
+                    let header = decode_block(file, b).and_then(|d| parse_slice_header(&d));
+                    slices.push(Slice { header_block: i, offset_in_container: b.offset - data_start, size: 0, header, data_blocks: Vec::new() });
+                }
+                content_type::EXTERNAL_DATA | content_type::CORE_DATA => {
+                    if let Some(s) = slices.last_mut() {
+                        s.data_blocks.push(i);
+                    }
+                }
+                _ => {}
+            }
+        }
+        let n = slices.len();
+        for i in 0..n {
+            let next = if i + 1 < n { slices[i + 1].offset_in_container } else { pos - data_start };
+            slices[i].size = next - slices[i].offset_in_container;
+        }
+    }
+    Ok(Container { offset: off, header_len, length, ref_id, start, span, n_records, record_counter, bases, n_blocks, landmarks, crc_stored, crc_computed, blocks, leftover, is_eof, compression_header, slices })
+}
+
+pub fn walk(file: &[u8]) -> Result<CramFile, String> {
+    if file.len() < FILE_DEFINITION_LEN {
+        return Err(format!("file of {} bytes is shorter than the file definition", file.len()));
+    }
+    if &file[0..4] != b"CRAM" {
+        return Err(format!("bad magic {:?}", &file[0..4]));
+    }
+    let (major, minor) = (file[4], file[5]);
+    let mut file_id = [0u8; 20];
+    file_id.copy_from_slice(&file[6..26]);
+    let header = parse_container(file, FILE_DEFINITION_LEN).map_err(|e| format!("header container: {e}"))?;
+    let header_text = header_text_of(file, &header);
+    let mut containers = Vec::new();
+    let mut pos = header.end();
+    while pos < file.len() {
+        let c = parse_container(file, pos)?;
+        pos = c.end();
+        containers.push(c);
+    }
+    Ok(CramFile { major, minor, file_id, header, header_text, containers })
+}
+
+fn header_text_of(file: &[u8], header: &Container) -> Result<Vec<u8>, String> {
+    let b = header.blocks.first().ok_or("header container has no block")?;
+    if b.content_type != content_type::FILE_HEADER {
+        return Err(format!("first block of the header container has content type {}", b.content_type));
+    }
+    let d = decode_block(file, b)?;
+    if d.len() < 4 {
+        return Err("file header block shorter than its length field".into());
+    }
+    let l = i32::from_le_bytes([d[0], d[1], d[2], d[3]]);
+    if l < 0 || 4 + l as usize > d.len() {
+        return Err(format!("file header text length {l} does not fit the {} block bytes", d.len() - 4));
+    }
+    Ok(d[4..4 + l as usize].to_vec())
+}
+
+// ---------------------------------------------------------------------------------------------
+// block decoding
+// ---------------------------------------------------------------------------------------------
+
+/// One gzip member (RFC 1952) covering the whole input: own header parse, raw deflate through
+/// `miniz_oxide`, CRC32 and ISIZE checked.
+pub fn gunzip_member(src: &[u8], limit: usize) -> Result<Vec<u8>, String> {
+    if src.len() < 18 {
+        return Err(format!("gzip stream of {} bytes is too short", src.len()));
+    }
+    if src[0] != 0x1f || src[1] != 0x8b || src[2] != 8 {
+        return Err("bad gzip magic / method".into());
+    }
+    let flg = src[3];
+    let mut pos = 10;
+    if flg & 4 != 0 {
+        let xlen = u16::from_le_bytes([src[10], src[11]]) as usize;
+        pos += 2 + xlen;
+    }
+    for bit in [8u8, 16] {
+        if flg & bit != 0 {
+            while pos < src.len() && src[pos] != 0 {
+                pos += 1;
+            }
+            pos += 1;
+        }
+    }
+    if flg & 2 != 0 {
+        pos += 2;
+    }
+    if pos + 8 > src.len() {
+        return Err("gzip header runs past the stream".into());
+    }
+    let body = &src[pos..src.len() - 8];
+    let out = bgzf_walk::inflate_raw(body, limit)?;
+    let t = &src[src.len() - 8..];
+    let crc = u32::from_le_bytes([t[0], t[1], t[2], t[3]]);
+    let isize = u32::from_le_bytes([t[4], t[5], t[6], t[7]]);
+    if crc32fast::hash(&out) != crc {
+        return Err("gzip CRC32 mismatch".into());
+    }
+    if isize as usize != out.len() {
+        return Err(format!("gzip ISIZE {isize} but {} bytes inflated", out.len()));
+    }
+    Ok(out)
+}
+
+pub fn bunzip2(src: &[u8], limit: usize) -> Result<Vec<u8>, String> {
+    use std::io::Read;
+    let mut out = Vec::new();
+    bzip2::read::BzDecoder::new(src).take(limit as u64 + 1).read_to_end(&mut out).map_err(|e| format!("bzip2: {e}"))?;
+    Ok(out)
+}
+
+/// How a payload was decoded (for labels / trust statements).
+#[derive(Clone, Copy, Debug, PartialEq, Eq)]
+pub enum Trust {
+    Independent,
+    NoodlesDecoder,
+}
+
+pub fn trust_of(method: u8) -> Trust {
+    match method {
+        method::RAW | method::GZIP | method::BZIP2 => Trust::Independent,
+        _ => Trust::NoodlesDecoder,
+    }
+}
+
+/// Decode a block payload *without using the declared raw size as the answer*: the result's
+/// length is what the stream really holds (for the codecs whose decoder needs an output size —
+/// lzma, Nx16, arith — the declared size is passed and the stream's own size field, where the
+/// format has one, is compared separately by `stream_own_size`).
+pub fn decode_block(file: &[u8], b: &Block) -> Result<Vec<u8>, String> {
+    let src = b.payload(file);
+    let limit = b.raw_size.max(src.len()).saturating_mul(4) + (1 << 16);
+    match b.method {
+        method::RAW => Ok(src.to_vec()),
+        method::GZIP => gunzip_member(src, limit),
+        method::BZIP2 => bunzip2(src, limit),
+        method::LZMA => {
+            let mut dst = vec![0u8; b.raw_size];
+            guard(|| noodles_cram::verif::lzma_decode(src, &mut dst))?;
+            Ok(dst)
+        }
+        method::RANS4X8 => guard(|| noodles_cram::verif::rans_4x8_decode(src)),
+        method::RANSNX16 => guard(|| noodles_cram::verif::rans_nx16_decode(src, b.raw_size)),
+        method::ARITH => guard(|| noodles_cram::verif::aac_decode(src, b.raw_size)),
+        method::FQZCOMP => guard(|| noodles_cram::verif::fqzcomp_decode(src)),
+        method::TOK3 => guard(|| noodles_cram::verif::name_tokenizer_decode(src)),
+        m => Err(format!("unknown compression method {m}")),
+    }
+}
+
+fn guard<T>(f: impl FnOnce() -> std::io::Result<T>) -> Result<T, String> {
+    match crate::engine::panics::catch(f) {
+        Ok(Ok(v)) => Ok(v),
+        Ok(Err(e)) => Err(format!("decoder error: {e}")),
+        Err(p) => Err(format!("decoder panic: {}", p.describe())),
+    }
+}
+
+/// The uncompressed size the compressed stream itself declares, for the codec formats that carry
+/// one (CRAMcodecs: rANS 4x8 header bytes 5..9; uint7 after the flag byte of rANS Nx16 / arith
+/// unless NO_SIZE (0x10) is set; uint7 at the start of fqzcomp). The name tokenizer's leading u32
+/// is deliberately not used: noodles writes the length *without* the final terminator there
+/// (block raw size − 1) and I am not sure enough of the field's definition to call that wrong.
+pub fn stream_own_size(method: u8, src: &[u8]) -> Option<usize> {
+    match method {
+        method::RANS4X8 => {
+            if src.len() >= 9 {
+                Some(u32::from_le_bytes([src[5], src[6], src[7], src[8]]) as usize)
+            } else {
+                None
+            }
+        }
+        method::RANSNX16 | method::ARITH => {
+            let flags = *src.first()?;
+            if flags & 0x10 != 0 {
+                return None;
+            }
+            Cur::new(src, 1).uint7().ok().map(|v| v as usize)
+        }
+        method::FQZCOMP => Cur::new(src, 0).uint7().ok().map(|v| v as usize),
+        _ => None,
+    }
+}
+
+// ---------------------------------------------------------------------------------------------
+// specification invariants (no ground truth needed)
+// ---------------------------------------------------------------------------------------------
+
+/// A structural finding: (`kind`, detail). `kind` is a short stable identifier that property
+/// modules prefix to build failure signatures.
+pub type Finding = (String, String);
+
+pub const KNOWN_SERIES: [&[u8; 2]; 30] = [
+    b"BF", b"CF", b"RI", b"RL", b"AP", b"RG", b"RN", b"MF", b"NS", b"NP", b"TS", b"NF", b"TL", b"FN", b"FC", b"FP", b"DL", b"BB", b"QQ", b"BS", b"IN", b"RS", b"PD", b"HC", b"SC", b"MQ", b"BA", b"QS", b"TC", b"TN",
+];
+
+fn check_block(file: &[u8], f: &CramFile, b: &Block, where_: &str, out: &mut Vec<Finding>) {
+    if b.crc_stored != b.crc_computed {
+        out.push(("block-crc32".into(), format!("{where_} block at {}: stored CRC32 {:08x}, computed {:08x}", b.offset, b.crc_stored, b.crc_computed)));
+    }
+    let max_method = if f.major == 3 && f.minor == 0 { method::RANS4X8 } else { method::TOK3 };
+    if b.method > max_method {
+        out.push((
+            format!("method-not-in-version:{}", method_name(b.method)),
+            format!("{where_} block at {} (content id {}) uses method {} ({}) in a file declared {}.{}", b.offset, b.content_id, b.method, method_name(b.method), f.major, f.minor),
+        ));
+    }
+    if b.method > method::TOK3 {
+        return;
+    }
+    // §8: blocks with a raw size of zero are empty whatever the method byte says — nothing to decode
+    if b.raw_size == 0 {
+        return;
+    }
+    let src = b.payload(file);
+    if let Some(own) = stream_own_size(b.method, src) {
+        if own != b.raw_size {
+            out.push((
+                format!("raw-size:{}", method_name(b.method)),
+                format!("{where_} block at {} (content id {}): block header declares raw size {} but the {} stream declares {}", b.offset, b.content_id, b.raw_size, method_name(b.method), own),
+            ));
+        }
+    }
+    match decode_block(file, b) {
+        Ok(d) => {
+            if d.len() != b.raw_size {
+                out.push((
+                    format!("raw-size:{}", method_name(b.method)),
+                    format!("{where_} block at {} (content id {}, {}): declared raw size {} but the payload decodes to {} bytes", b.offset, b.content_id, method_name(b.method), b.raw_size, d.len()),
+                ));
+            }
+        }
+        Err(e) => out.push((format!("block-decode:{}", method_name(b.method)), format!("{where_} block at {} (content id {}, {} → {} bytes): {e}", b.offset, b.content_id, b.comp_size, b.raw_size))),
+    }
+}
+
+/// Invariants of the container format that need nothing but the file.
+pub fn check_structure(file: &[u8], f: &CramFile) -> Vec<Finding> {
+    let mut out: Vec<Finding> = Vec::new();
+    if f.major != 3 || f.minor > 1 {
+        out.push(("version".into(), format!("file definition declares version {}.{}", f.major, f.minor)));
+    }
+    // header container
+    {
+        let h = &f.header;
+        if h.crc_stored != h.crc_computed {
+            out.push(("container-crc32".into(), format!("header container: stored CRC32 {:08x}, computed {:08x}", h.crc_stored, h.crc_computed)));
+        }
+        if h.leftover != 0 {
+            // the header container may legitimately carry padding *blocks*, not stray bytes
+            out.push(("container-length".into(), format!("header container: {} bytes of the declared length are not covered by its {} blocks", h.leftover, h.n_blocks)));
+        }
+        for b in &h.blocks {
+            check_block(file, f, b, "header container", &mut out);
+        }
+        if let Err(e) = &f.header_text {
+            out.push(("file-header".into(), e.clone()));
+        }
+    }
+    // EOF container: the file ends with it, and it is the only EOF-shaped container
+    if file.len() < EOF_V3.len() || file[file.len() - EOF_V3.len()..] != EOF_V3 {
+        out.push(("eof-container".into(), "the file does not end with the 38-byte CRAM v3 EOF container".into()));
+    }
+    match f.containers.last() {
+        Some(c) if c.is_eof => {}
+        _ => out.push(("eof-container".into(), "the last container is not the EOF container".into())),
+    }
+    for (ci, c) in f.containers.iter().enumerate() {
+        let w = format!("container {ci} at {}", c.offset);
+        if c.crc_stored != c.crc_computed {
+            out.push(("container-crc32".into(), format!("{w}: stored header CRC32 {:08x}, computed {:08x}", c.crc_stored, c.crc_computed)));
+        }
+        if c.is_eof {
+            if ci + 1 != f.containers.len() {
+                out.push(("eof-container".into(), format!("{w}: EOF container before the end of the file")));
+            }
+            continue;
+        }
+        if c.leftover != 0 {
+            out.push(("container-length".into(), format!("{w}: declared length {} but its {} blocks occupy {} bytes", c.length, c.n_blocks, c.length as usize - c.leftover)));
+        }
+        for b in &c.blocks {
+            check_block(file, f, b, &w, &mut out);
+        }
+        // first block = compression header
+        match c.blocks.first() {
+            Some(b) if b.content_type == content_type::COMPRESSION_HEADER => {}
+            Some(b) => out.push(("block-layout".into(), format!("{w}: first block has content type {} (want 1, compression header)", b.content_type))),
+            None => out.push(("block-layout".into(), format!("{w}: no blocks"))),
+        }
+        if c.blocks.iter().filter(|b| b.content_type == content_type::COMPRESSION_HEADER).count() > 1 {
+            out.push(("block-layout".into(), format!("{w}: more than one compression header block")));
+        }
+        for b in &c.blocks {
+            if ![content_type::COMPRESSION_HEADER, content_type::SLICE_HEADER, content_type::EXTERNAL_DATA, content_type::CORE_DATA].contains(&b.content_type) {
+                out.push(("block-layout".into(), format!("{w}: block at {} has content type {}", b.offset, b.content_type)));
+            }
+        }
+        // landmarks = offsets of the slice header blocks from the end of the container header
+        let expect: Vec<i32> = c.slices.iter().map(|s| s.offset_in_container as i32).collect();
+        if c.landmarks != expect {
+            out.push(("landmarks".into(), format!("{w}: landmarks {:?} but the slice header blocks start at {:?} (header length {})", c.landmarks, expect, c.header_len)));
+        }
+        if c.slices.is_empty() {
+            out.push(("block-layout".into(), format!("{w}: no slice")));
+        }
+        match &c.compression_header {
+            Some(Ok(h)) => check_compression_header(h, &w, &mut out),
+            Some(Err(e)) => out.push(("compression-header".into(), format!("{w}: {e}"))),
+            None => {}
+        }
+        // slices
+        let mut n_rec: i64 = 0;
+        for (si, s) in c.slices.iter().enumerate() {
+            let w = format!("{w} slice {si}");
+            let h = match &s.header {
+                Ok(h) => h,
+                Err(e) => {
+                    out.push(("slice-header".into(), format!("{w}: {e}")));
+                    continue;
+                }
+            };
+            n_rec += h.n_records as i64;
+            if h.n_blocks as usize != s.data_blocks.len() {
+                out.push(("slice-block-count".into(), format!("{w}: header declares {} blocks, {} data blocks follow", h.n_blocks, s.data_blocks.len())));
+            }
+            let present: Vec<i32> = s.data_blocks.iter().map(|i| c.blocks[*i].content_id).collect();
+            let external: Vec<i32> = s.data_blocks.iter().filter(|i| c.blocks[**i].content_type == content_type::EXTERNAL_DATA).map(|i| c.blocks[*i].content_id).collect();
+            let cores = s.data_blocks.iter().filter(|i| c.blocks[**i].content_type == content_type::CORE_DATA).count();
+            if cores != 1 {
+                out.push(("block-layout".into(), format!("{w}: {cores} core data blocks (want exactly 1)")));
+            }
+            // ids listed ⊆ present ∪ {0}; ⊇ external ids; external ids unique
+            for id in &h.content_ids {
+                if *id != 0 && !present.contains(id) {
+                    out.push(("slice-content-ids".into(), format!("{w}: header lists content id {id} but no such block follows (present: {present:?})")));
+                }
+            }
+            for id in &external {
+                if !h.content_ids.contains(id) {
+                    out.push(("slice-content-ids".into(), format!("{w}: external block {id} is not listed in the slice header ids {:?}", h.content_ids)));
+                }
+            }
+            let mut e2 = external.clone();
+            e2.sort();
+            e2.dedup();
+            if e2.len() != external.len() {
+                out.push(("slice-content-ids".into(), format!("{w}: duplicate external block content ids {external:?}")));
+            }
+            if h.embedded_ref_id != -1 && !external.contains(&h.embedded_ref_id) {
+                out.push(("slice-embedded-ref".into(), format!("{w}: embedded reference block id {} is not among the external blocks", h.embedded_ref_id)));
+            }
+            // slice counters inside the container: first slice continues the container counter
+            let expect_counter = c.record_counter + (n_rec - h.n_records as i64);
+            if h.record_counter != expect_counter {
+                out.push(("slice-record-counter".into(), format!("{w}: record counter {} (container counter {} + {} records in earlier slices = {expect_counter})", h.record_counter, c.record_counter, n_rec - h.n_records as i64)));
+            }
+            if (h.ref_id == -1 || h.ref_id == -2) && h.md5 != [0u8; 16] {
+                out.push(("slice-md5".into(), format!("{w}: reference id {} but a non-zero reference MD5", h.ref_id)));
+            }
+            if h.ref_id < -2 || (h.ref_id >= 0 && (h.start < 1 || h.span < 1)) {
+                out.push(("slice-ref-context".into(), format!("{w}: reference id {} start {} span {}", h.ref_id, h.start, h.span)));
+            }
+        }
+        if c.n_records as i64 != n_rec {
+            out.push(("container-record-count".into(), format!("{w}: header declares {} records, its slices declare {n_rec}", c.n_records)));
+        }
+        if c.n_blocks as usize != c.blocks.len() {
+            out.push(("container-block-count".into(), format!("{w}: declares {} blocks, {} parsed", c.n_blocks, c.blocks.len())));
+        }
+    }
+    // record counters: running totals over the data containers. The first counter may be 0 or 1:
+    // the CRAM 3.0 text said "1-based", later revisions (and htslib) count from 0.
+    let mut total: i64 = counter_base(f);
+    for (ci, c) in f.containers.iter().enumerate() {
+        if c.is_eof {
+            continue;
+        }
+        if c.record_counter != total {
+            out.push(("container-record-counter".into(), format!("container {ci} at {}: record counter {} but {} records precede it (counting from {})", c.offset, c.record_counter, total - counter_base(f), counter_base(f))));
+        }
+        total += c.n_records as i64;
+    }
+    out
+}
+
+/// The record counter of the first data container when it is 0 or 1 (both conventions exist in
+/// revisions of the specification), else 0.
+pub fn counter_base(f: &CramFile) -> i64 {
+    match f.containers.iter().find(|c| !c.is_eof).map(|c| c.record_counter) {
+        Some(1) => 1,
+        _ => 0,
+    }
+}
+
+fn check_compression_header(h: &CompressionHeader, w: &str, out: &mut Vec<Finding>) {
+    let mut seen: Vec<[u8; 2]> = Vec::new();
+    for (k, _) in &h.preservation {
+        if seen.contains(k) {
+            out.push(("compression-header".into(), format!("{w}: preservation map key {} twice", String::from_utf8_lossy(k))));
+        }
+        seen.push(*k);
+    }
+    if let Some(sm) = h.pm(b"SM") {
+        for (i, b) in sm.iter().enumerate() {
+            let mut codes = [(b >> 6) & 3, (b >> 4) & 3, (b >> 2) & 3, b & 3];
+            codes.sort();
+            if codes != [0, 1, 2, 3] {
+                out.push(("substitution-matrix".into(), format!("{w}: substitution matrix row {i} = {b:#04x} is not a permutation of the four codes")));
+            }
+        }
+    }
+    let mut seen: Vec<[u8; 2]> = Vec::new();
+    for (k, e) in &h.data_series {
+        if !KNOWN_SERIES.contains(&k) {
+            out.push(("compression-header".into(), format!("{w}: unknown data series key {}", String::from_utf8_lossy(k))));
+        }
+        if seen.contains(k) {
+            out.push(("compression-header".into(), format!("{w}: data series {} twice", String::from_utf8_lossy(k))));
+        }
+        seen.push(*k);
+        if !(0..=9).contains(&e.codec) {
+            out.push(("compression-header".into(), format!("{w}: data series {} uses unknown codec id {}", String::from_utf8_lossy(k), e.codec)));
+        }
+    }
+    match h.tag_lines() {
+        Ok(lines) => {
+            for line in lines {
+                for (tag, ty) in line {
+                    let key = ((tag[0] as i32) << 16) | ((tag[1] as i32) << 8) | ty as i32;
+                    if !h.tags.iter().any(|(k, _)| *k == key) {
+                        out.push(("compression-header".into(), format!("{w}: tag dictionary entry {}:{} has no tag encoding (key {key:#x})", String::from_utf8_lossy(&tag), ty as char)));
+                    }
+                }
+            }
+        }
+        Err(e) => out.push(("compression-header".into(), format!("{w}: {e}"))),
+    }
+}
+
+// ---------------------------------------------------------------------------------------------
+// helpers for mutation-based checks
+// ---------------------------------------------------------------------------------------------
+
+/// Recompute every block CRC32 and every container header CRC32 in place (for mutation fuzzing:
+/// corrupt a payload or a header field, re-seal, and the corruption reaches the decoders). The
+/// layout must still parse.
+pub fn reseal(file: &mut Vec<u8>) -> Result<(), String> {
+    let f = walk(file)?;
+    let mut all: Vec<&Container> = vec![&f.header];
+    all.extend(f.containers.iter());
+    let mut patches: Vec<(usize, u32)> = Vec::new();
+    for c in all {
+        let crc_off = c.offset + c.header_len - 4;
+        patches.push((crc_off, crc32fast::hash(&file[c.offset..crc_off])));
+        for b in &c.blocks {
+            patches.push((b.crc_offset(), crc32fast::hash(&file[b.offset..b.crc_offset()])));
+        }
+    }
+    for (off, crc) in patches {
+        file[off..off + 4].copy_from_slice(&crc.to_le_bytes());
+    }
+    Ok(())
+}
+
+#[cfg(test)]
+mod tests {
+    use super::*;
+
+    #[test]
+    fn eof_constant_is_self_consistent() {
+        let mut file = b"CRAM\x03\x00".to_vec();
+        file.extend_from_slice(&[0u8; 20]);
+        // a header container is required by `walk`; parse the EOF container alone instead
+        let c = parse_container(&EOF_V3, 0).unwrap();
+        assert!(c.is_eof);
+        assert_eq!(c.crc_stored, c.crc_computed);
+        assert_eq!(c.blocks.len(), 1);
+        assert_eq!(c.blocks[0].crc_stored, c.blocks[0].crc_computed);
+    }
+}
